@@ -738,6 +738,18 @@ shape!(X_V16, FlexVec<FlatVec<u8, u16>, u16>, 2, 2, |b, d| { top_flex(Item::VecU
     o.c.put(n);
 });
 
+// sized items less aligned than the offset type: OFFSET_SIZE 2, align 2, u8 items (each item
+// is padded to 2 bytes)
+shape!(X_U8L16, false, FlexVec<u8, u16>, 2, 2, |b, d| { top_flex(Item::El(El::U8), 2, 2, b, d); }, |v, o| {
+    let mut n = 0u8;
+    for x in v.iter() {
+        o.at(x);
+        o.c.put(*x);
+        n += 1;
+    }
+    o.c.put(n);
+});
+
 // offset type more strictly aligned than the items: OFFSET_SIZE 2, align 2, items of align 1
 shape!(X_V8L16, false, FlexVec<FlatVec<u8, u8>, u16>, 2, 2, |b, d| { top_flex(Item::VecU8(1), 2, 2, b, d); }, |v, o| {
     let mut n = 0u8;
